@@ -125,7 +125,7 @@ class FX:
         new = self.ex.expand(e, at, stop=set(self.acc) | set(keep)) if at is not None else copy.deepcopy(e)
         return resolve_consts(self.f.module, new, self.locals)
 
-    def conds(self, node: ast.AST) -> List[Tuple[ast.AST, bool]]:
+    def conds(self, node: ast.AST, keep=()) -> List[Tuple[ast.AST, bool]]:
         """path condition (expanded atoms with polarity) of the statement containing node, plus the conditions inside
         that statement's expression (IfExp tests, short circuits, comprehension filters) under which node is evaluated"""
         cn = self.cfg.node_containing(node) or self.cfg.node_of(node)
@@ -133,7 +133,7 @@ class FX:
         if cn is None:
             return out
         for t, pol in self.cfg.conditions(cn):
-            out += split_conj(self.x(t), pol)
+            out += split_conj(self.x(t, keep=keep), pol)
         return out
 
     def def_value(self, name: str, at_expr: ast.AST) -> Optional[ast.AST]:
@@ -596,7 +596,8 @@ def generic_copies(ctx, func: Func) -> List[GenericCopy]:
             elif isinstance(v, ast.Name) and len(names) == 2 and v.id == names[1]:
                 ok = True
             if ok:
-                out.append(GenericCopy(c, dst, owner, k.id, fx.conds(c), fo))
+                keep = [n.id for n in (dst, owner) if isinstance(n, ast.Name)]
+                out.append(GenericCopy(c, dst, owner, k.id, fx.conds(c, keep=keep), fo))
             break
     return out
 
